@@ -799,7 +799,9 @@ class _PerAxisInterpolator(_Interpolator):
 
         if out is None:
             out_shape = out_shape_from_meshgrid(norm_distances)
-            out_dtype = self.values.dtype
+            # Weights are floating point: integer values need a float
+            # accumulator
+            out_dtype = np.result_type(self.values.dtype, np.float32)
             out = np.zeros(out_shape, dtype=out_dtype)
         else:
             out[:] = 0.0
